@@ -365,6 +365,7 @@ func run(c *runner.Ctx) {
 					v1s := reduce(vals(c1, leafMenu), 4)
 					if c.Thorough() {
 						v0s = vals(c0, leafMenu)
+						v1s = reduce(vals(c1, leafMenu), 7)
 					}
 					for _, a := range v0s {
 						for _, b := range v1s {
@@ -388,7 +389,11 @@ func run(c *runner.Ctx) {
 		for _, im := range marks {
 			mid := reflect.StructOf([]reflect.StructField{{Name: "A", Type: ic, Tag: tagOf(im)}, {Name: "N", Type: reflect.TypeOf(0), Tag: `valid:"le=5"`}})
 			var midMenu []dv
-			for _, iv := range reduce(vals(ic, leafMenu), 4) {
+			nInner := 4
+			if c.Thorough() {
+				nInner = 8
+			}
+			for _, iv := range reduce(vals(ic, leafMenu), nInner) {
 				m := reflect.New(mid).Elem()
 				m.Field(0).Set(iv.v)
 				midMenu = append(midMenu, dv{m, "{A:" + iv.desc + "}"})
@@ -404,7 +409,11 @@ func run(c *runner.Ctx) {
 				if !c.Thorough() && (ii+oi)%2 != 0 {
 					continue
 				}
-				for _, om := range marks[:2] {
+				oms := marks[:2]
+				if c.Thorough() {
+					oms = marks // also unmarked: nothing below may be reported
+				}
+				for _, om := range oms {
 					top := reflect.StructOf([]reflect.StructField{{Name: "M", Type: oc, Tag: tagOf(om)}})
 					for _, ov := range vals(oc, menu) {
 						if !c.Take() {
@@ -413,6 +422,52 @@ func run(c *runner.Ctx) {
 						node := reflect.New(top).Elem()
 						node.Field(0).Set(ov.v)
 						compare(c, node.Addr().Interface(), fmt.Sprintf("*struct{M %s `%s`} with Mid=struct{A %s `%s`; N int `le=5`} M=%s", shortT(oc), om, ic, im, ov.desc), &nt)
+					}
+				}
+			}
+		}
+	}
+	// depth 4 (thorough): Top{M oc(Mid)} nested once more through a reduced container set, Mid{A ic(Leaf)}
+	if c.Thorough() {
+		c.Space("depth4")
+		pick := func(all []reflect.Type) []reflect.Type { // T, *T, []T, []*T, [2]*T, map[string]T, map[int]*T, []**T
+			return []reflect.Type{all[0], all[1], all[3], all[4], all[7], all[8], all[10], all[5]}
+		}
+		for _, ic := range pick(containers(leafT)) {
+			for _, im := range marks[:2] {
+				mid := reflect.StructOf([]reflect.StructField{{Name: "A", Type: ic, Tag: tagOf(im)}, {Name: "N", Type: reflect.TypeOf(0), Tag: `valid:"le=5"`}})
+				var midMenu []dv
+				for _, iv := range reduce(vals(ic, leafMenu), 4) {
+					m := reflect.New(mid).Elem()
+					m.Field(0).Set(iv.v)
+					midMenu = append(midMenu, dv{m, "{A:" + iv.desc + "}"})
+				}
+				m9 := reflect.New(mid).Elem()
+				m9.Field(1).SetInt(9)
+				midMenu = append(midMenu, dv{m9, "{N:9}"})
+				for _, oc := range pick(containers(mid)) {
+					for _, om := range marks[:2] {
+						top := reflect.StructOf([]reflect.StructField{{Name: "M", Type: oc, Tag: tagOf(om)}, {Name: "S", Type: reflect.TypeOf(""), Tag: `valid:"required"`}})
+						var topMenu []dv
+						for _, ov := range reduce(vals(oc, map[reflect.Type][]dv{mid: midMenu}), 5) {
+							t := reflect.New(top).Elem()
+							t.Field(0).Set(ov.v)
+							topMenu = append(topMenu, dv{t, "{M:" + ov.desc + "}"})
+						}
+						for _, xc := range pick(containers(top)) {
+							for _, xm := range marks[:2] {
+								root := reflect.StructOf([]reflect.StructField{{Name: "R", Type: xc, Tag: tagOf(xm)}})
+								for _, xv := range vals(xc, map[reflect.Type][]dv{top: topMenu}) {
+									if !c.Take() {
+										continue
+									}
+									node := reflect.New(root).Elem()
+									node.Field(0).Set(xv.v)
+									compare(c, node.Addr().Interface(), fmt.Sprintf("*struct{R %s `%s`} Top=struct{M %s `%s`; S string `required`} Mid=struct{A %s `%s`; N int `le=5`} R=%s",
+										shortT(xc), xm, shortT(oc), om, ic, im, xv.desc), &nt)
+								}
+							}
+						}
 					}
 				}
 			}
@@ -497,7 +552,7 @@ func main() {
 		Property:  "C04",
 		Technique: "bounded-exhaustive enumeration of acyclic object graphs (container grammar, depth<=3) vs walk reference model (expected clause/path list)",
 		Rule: "types: 13 containers of Leaf {T,*T,**T,[]T,[]*T,[]**T,[2]T,[2]*T,map[string]T,map[string]*T,map[int]*T,map[bool]T,map[int32]**T} x marks {required,exist,none} as one or two fields (+unexported, time.Time, unmarked extras), " +
-			"nested once more through every container of Mid (depth 3); values: nil / zero / valid / violating nodes, collections of length 0..2 with every mix; top-level input T,*T,**T,[]T,[]*T,[2]T,map[string]*T,map[int]T; " +
+			"nested once more through every container of Mid (depth 3; thorough: unmarked outer fields too, and a depth-4 space over 8 container kinds per level); values: nil / zero / valid / violating nodes, collections of length 0..2 with every mix; top-level input T,*T,**T,[]T,[]*T,[2]T,map[string]*T,map[int]T; " +
 			"plus a named Parent/Mid/Leaf family; Leaf = {required, to=1~3, either group of two}; expected clauses from the walk model: field clauses compared in order (as a multiset when a map with >=2 entries is iterated), group clauses (reported after the walk, path-qualified per sub-object) after them as a multiset; non-trivial = a violation at depth>=2",
 		Assumptions: []string{"acyclic graphs only (statement)", "walk model internal/walk"},
 		Run:         run,
